@@ -119,18 +119,21 @@ class Harness:
 
     # ------------------------------------------------------------------ guard against operations that never return
     CASE_LIMIT_S = 45.0
+    LONG_LIMIT_S = 300.0
 
     def _start_guard(self) -> None:
         """A case normally takes milliseconds.  Executions are watched by the schedule controller's own watchdog; this
         guard covers everything else a case does with tawazi (building, selecting, composing ...): if the main thread
         is still inside one case after CASE_LIMIT_S and three samples one second apart all show it inside tawazi's
-        code, HangDetected is raised there, and the case is reported as a violation with those frames."""
+        code, ASLEEP (kernel state S) and without a single event recorded meanwhile, HangDetected is raised there, and
+        the case is reported as a violation with those frames.  A thread that is computing gets LONG_LIMIT_S."""
         import ctypes
         import threading
 
         from . import sched
 
         main_ident = threading.get_ident()
+        main_tid = threading.get_native_id()
         self._case_t0: Optional[float] = None
         self._guard_frames: List[str] = []
 
@@ -141,16 +144,27 @@ class Harness:
                 if t0 is None or time.monotonic() - t0 < self.CASE_LIMIT_S:
                     continue
                 samples = []
+                states = []
+                progress0 = sched.PROGRESS[0]
                 for _ in range(3):
                     fr = sys._current_frames().get(main_ident)
                     import traceback as tb
 
                     frames = [f"{f.filename}:{f.lineno}:{f.name}" for f in tb.extract_stack(fr)] if fr else []
                     samples.append(frames)
+                    try:
+                        with open(f"/proc/self/task/{main_tid}/stat") as f_:
+                            states.append(f_.read().rsplit(")", 1)[1].split()[0])
+                    except Exception:  # noqa: BLE001
+                        states.append("?")
                     time.sleep(1.0)
                 if self._case_t0 != t0:
                     continue  # the case ended meanwhile
-                if all(any("/tawazi/" in f for f in s[-8:]) for s in samples):
+                # slow is not hung: no verdict while the execution under observation records events, nor while the
+                # thread is computing (kernel state R) - unless it has been at it for LONG_LIMIT_S
+                stuck = sched.PROGRESS[0] == progress0 and (all(st_ == "S" for st_ in states)
+                                                          or time.monotonic() - t0 > self.LONG_LIMIT_S)
+                if stuck and all(any("/tawazi/" in f for f in s[-8:]) for s in samples):
                     self._guard_frames = samples[-1][-6:]
                     sched.LAST_GUARD_FRAMES = list(self._guard_frames)
                     self._case_t0 = None
